@@ -346,10 +346,19 @@ coap_oscore_new_pdu_encrypted_lkd(coap_session_t *session,
   coap_bin_const_t external_aad;
   uint8_t oscore_option[48];
   size_t oscore_option_len;
+  size_t opt_growth = 0;
 
   /* Check that OSCORE has not already been done */
   if (coap_check_option(pdu, COAP_OPTION_OSCORE, &opt_iter))
     return NULL;
+
+  /*
+   * Separating the options into inner and outer ones changes the option
+   * deltas: every option header can grow by up to 2 bytes in its new place.
+   */
+  coap_option_iterator_init(pdu, &opt_iter, COAP_OPT_ALL);
+  while (coap_option_next(&opt_iter))
+    opt_growth += 2;
 
   if (coap_check_option(pdu, COAP_OPTION_OBSERVE, &opt_iter))
     doing_observe = 1;
@@ -361,7 +370,8 @@ coap_oscore_new_pdu_encrypted_lkd(coap_session_t *session,
                           COAP_MESSAGE_CON : pdu->type,
                           code,
                           pdu->mid,
-                          pdu->used_size + coap_oscore_overhead(session, pdu));
+                          pdu->used_size + coap_oscore_overhead(session, pdu) +
+                          /* OSCORE option extended length */ 2 + opt_growth);
   if (osc_pdu == NULL)
     return NULL;
 
@@ -540,7 +550,8 @@ coap_oscore_new_pdu_encrypted_lkd(coap_session_t *session,
   plain_pdu = coap_pdu_init(pdu->type,
                             pdu->code,
                             pdu->mid,
-                            pdu->used_size + 1 /* pseudo-token with actual code */);
+                            pdu->used_size + 1 /* pseudo-token with actual code */ +
+                            opt_growth);
   if (plain_pdu == NULL)
     goto error;
 
